@@ -532,7 +532,7 @@ func init() {
 						// configuration text (looked up in the special-scheme table) is not input
 						if ex, ok := arg.(*ssa.Extract); ok {
 							if c2, ok := ex.Tuple.(*ssa.Call); ok {
-								if cl2 := c2.Common().StaticCallee(); cl2 != nil && cl2.Name() == "getSpecialScheme" {
+								if cl2 := c2.Common().StaticCallee(); cl2 != nil && (cl2.Name() == "getSpecialScheme" || schemeTableLookup(cl2)) {
 									s.OK(key, pos, "argument is a default port from the configured scheme table, not input", props...)
 									continue
 								}
@@ -1265,4 +1265,43 @@ func strconvDigitsOnly(c *Ctx, f *ssa.Function, call *ssa.Call) bool {
 		}
 	}
 	return false
+}
+
+// schemeTableLookup: a module function whose first result is, on every return, what the special-scheme table of the
+// parser's options holds for a key (or a constant): configuration text, not input.
+func schemeTableLookup(g *ssa.Function) bool {
+	if len(g.Blocks) == 0 {
+		return false
+	}
+	var lk *ssa.Lookup
+	for _, b := range g.Blocks {
+		for _, ins := range b.Instrs {
+			if l, ok := ins.(*ssa.Lookup); ok {
+				if _, ok := loadOfField(l.X, "parserOptions:specialSchemes"); ok {
+					lk = l
+				}
+			}
+		}
+	}
+	if lk == nil {
+		return false
+	}
+	n := 0
+	for _, b := range g.Blocks {
+		r, ok := b.Instrs[len(b.Instrs)-1].(*ssa.Return)
+		if !ok || len(r.Results) == 0 {
+			continue
+		}
+		n++
+		switch x := r.Results[0].(type) {
+		case *ssa.Const:
+		case *ssa.Extract:
+			if x.Tuple != ssa.Value(lk) || x.Index != 0 {
+				return false
+			}
+		default:
+			return false
+		}
+	}
+	return n > 0
 }
